@@ -3,10 +3,12 @@
 package c17
 
 import (
+	"encoding/hex"
 	"fmt"
 	"io"
 	"os"
 	"path/filepath"
+	"regexp"
 	"sort"
 	"strconv"
 	"strings"
@@ -18,7 +20,10 @@ import (
 	"verifharness/internal/vh"
 )
 
-const app = "app"
+var dateRe = regexp.MustCompile(`^[0-9]{4}-[0-9]{2}-[0-9]{2}$`)
+var pidRe = regexp.MustCompile(`\.pid[0-9]+`)
+
+const app = "v.app" // the dot is replaced by "-" in the file name (FormMetricFileName)
 
 type Interp struct {
 	clk       *vh.Clock
@@ -29,6 +34,8 @@ type Interp struct {
 	origData  []byte
 	origIdx   []byte
 	searchers map[string]metric.MetricSearcher
+	pid       bool // file names carry ".pid<pid>" (config Log.UsePid)
+	dead      bool // the writer died (cut / raw / rmidx): last-file snapshot taken
 }
 
 func New() vh.Interp {
@@ -144,13 +151,16 @@ func (it *Interp) lastDataFile() string {
 		seq        int
 	}
 	var xs []ent
-	prefix := metric.FormMetricFileName(app, false) + "."
+	prefix := metric.FormMetricFileName(app, it.pid) + "."
 	for _, e := range es {
 		n := e.Name()
-		if strings.HasSuffix(n, ".idx") || !strings.HasPrefix(n, prefix) {
+		if e.IsDir() || strings.HasSuffix(n, ".idx") || !strings.HasPrefix(n, prefix) {
 			continue
 		}
 		parts := strings.Split(n[len(prefix):], ".")
+		if !dateRe.MatchString(parts[0]) {
+			continue // a foreign file that merely shares the prefix
+		}
 		seq := 0
 		if len(parts) > 1 {
 			seq, _ = strconv.Atoi(parts[1])
@@ -173,13 +183,36 @@ func (it *Interp) searcher(id string) metric.MetricSearcher {
 	s, ok := it.searchers[id]
 	if !ok {
 		var err error
-		s, err = metric.NewDefaultMetricSearcher(it.dir, metric.FormMetricFileName(app, false))
+		s, err = metric.NewDefaultMetricSearcher(it.dir, metric.FormMetricFileName(app, it.pid))
 		if err != nil {
 			panic(err)
 		}
 		it.searchers[id] = s
 	}
 	return s
+}
+
+// die: the writer dies (crash); remember the last data file and what it and its index held.
+func (it *Interp) die() {
+	if it.closed {
+		return
+	}
+	it.closeWriter()
+	it.closed = true
+	it.lastData = it.lastDataFile()
+	it.origData, _ = os.ReadFile(it.lastData)
+	it.origIdx, _ = os.ReadFile(it.lastData + ".idx")
+}
+
+func appendTo(path string, bs []byte) {
+	f, err := os.OpenFile(path, os.O_APPEND|os.O_WRONLY, 0o644)
+	if err != nil {
+		panic(err)
+	}
+	defer f.Close()
+	if _, err := f.Write(bs); err != nil {
+		panic(err)
+	}
 }
 
 func cutTo(path string, orig []byte, k uint64) {
@@ -207,8 +240,10 @@ func (it *Interp) Step(t []string, op string) string {
 		cfg := config.NewDefaultConfig()
 		cfg.Sentinel.Log.Dir = dir
 		cfg.Sentinel.App.Name = app
+		it.pid = len(t) > 3 && t[3] == "pid"
+		cfg.Sentinel.Log.UsePid = it.pid
 		config.ResetGlobalConfig(cfg)
-		w, err := metric.NewDefaultMetricLogWriterOfApp(maxSize, uint32(maxFiles), app)
+		w, err := metric.NewDefaultMetricLogWriter(maxSize, uint32(maxFiles)) // app name from the config
 		if err != nil {
 			return "err"
 		}
@@ -253,13 +288,7 @@ func (it *Interp) Step(t []string, op string) string {
 		if it.w == nil {
 			return "bad-op"
 		}
-		if !it.closed {
-			it.closeWriter()
-			it.closed = true
-			it.lastData = it.lastDataFile()
-			it.origData, _ = os.ReadFile(it.lastData)
-			it.origIdx, _ = os.ReadFile(it.lastData + ".idx")
-		}
+		it.die()
 		k := vh.U(t[2])
 		switch t[1] {
 		case "data":
@@ -270,6 +299,61 @@ func (it *Interp) Step(t []string, op string) string {
 			return "bad-op"
 		}
 		return ""
+	case "log.raw":
+		// corruption other than truncation: garbage appended to the last data / idx file
+		if it.w == nil || len(t) != 3 {
+			return "bad-op"
+		}
+		bs, err := hex.DecodeString(t[2])
+		if err != nil {
+			return "bad-op"
+		}
+		it.die()
+		switch t[1] {
+		case "data":
+			appendTo(it.lastData, bs)
+		case "idx":
+			if _, err := os.Stat(it.lastData + ".idx"); err != nil {
+				return "bad-op"
+			}
+			appendTo(it.lastData+".idx", bs)
+		default:
+			return "bad-op"
+		}
+		return ""
+	case "log.rmidx":
+		if it.w == nil {
+			return "bad-op"
+		}
+		it.die()
+		_ = os.Remove(it.lastData + ".idx")
+		return ""
+	case "log.touch":
+		if it.w == nil {
+			return "bad-op"
+		}
+		if err := os.WriteFile(filepath.Join(it.dir, t[1]), nil, 0o644); err != nil {
+			panic(err)
+		}
+		return ""
+	case "log.mkdir":
+		if it.w == nil {
+			return "bad-op"
+		}
+		if err := os.MkdirAll(filepath.Join(it.dir, t[1]), 0o755); err != nil {
+			panic(err)
+		}
+		return ""
+	case "log.badsearcher":
+		_, e1 := metric.NewDefaultMetricSearcher("", "x")
+		_, e2 := metric.NewDefaultMetricSearcher("/tmp", "")
+		r := func(e error) string {
+			if e != nil {
+				return "err"
+			}
+			return "ok"
+		}
+		return r(e1) + " " + r(e2)
 	case "log.files":
 		if it.w == nil {
 			return "bad-op"
@@ -284,7 +368,12 @@ func (it *Interp) Step(t []string, op string) string {
 			if err != nil {
 				panic(err)
 			}
-			xs = append(xs, fmt.Sprintf("%s:%d", e.Name(), st.Size()))
+			name := pidRe.ReplaceAllString(e.Name(), ".pidN")
+			if e.IsDir() {
+				xs = append(xs, name+"/:0")
+			} else {
+				xs = append(xs, fmt.Sprintf("%s:%d", name, st.Size()))
+			}
 		}
 		return vh.List(xs)
 	case "log.find":
